@@ -340,6 +340,13 @@ fn check_var(ty: &Ty, i: i128, out: &mut CaseOut) {
                     if fits {
                         out.violate(format!("c10/var/{}/decode-refused", ty_name(&t)), format!("decoding {bytes:02x?} (value {i}) as {t:?} failed: {:?}", e.rendered));
                     }
+                    // the refusal has to be renderable (this is the only place where the range errors of the 16- and
+                    // 32-bit targets arise: they need a 4- or 8-byte encoding)
+                    match &e.rendered {
+                        Err(p) => out.violate(format!("c10/var/{}/error-not-renderable", ty_name(&t)), format!("decoding {bytes:02x?} as {t:?}: rendering the returned error panicked: {p}")),
+                        Ok(m) if m.trim().is_empty() => out.violate(format!("c10/var/{}/error-renders-empty", ty_name(&t)), format!("decoding {bytes:02x?} as {t:?}")),
+                        Ok(_) => {}
+                    }
                 }
                 Err((loc, msg)) => out.violate(format!("c10/var/{}/panic@{loc}", ty_name(&t)), format!("decoding {bytes:02x?} as {t:?}: panic {msg}")),
             }
@@ -714,11 +721,11 @@ impl Family for EntryPoints {
         "entry-points/by value vs by reference for every primitive at its boundary values, &str vs &String, &[T] vs &Vec<T>, encode_size vs encode_varuint".into()
     }
     fn len(&self) -> u64 {
-        4
+        5
     }
     fn describe(&self, idx: u64) -> Value {
         {
-            let groups = ["integers", "floats and bool", "strings", "sequences and sizes"];
+            let groups = ["integers", "floats and bool", "strings", "sequences and sizes", "array-backed and oversized slice targets"];
             json!({"group": groups[idx as usize]})
         }
     }
@@ -773,6 +780,40 @@ impl Family for EntryPoints {
                 for st in &strings {
                     same(&format!("string of {} bytes as &str / &String", st.len()), enc_with(|e| e.encode(st.as_str())), enc_with(|e| e.encode(st)), &mut out);
                 }
+            }
+            4 => {
+                // the constructors for slice targets: from an array, from a slice, Encoder::from on both; a slice larger
+                // than the value keeps its tail
+                use slice_codec::buffer::slice::SliceOutputTarget;
+                macro_rules! arr {
+                    ($n:literal, $v:expr) => {{
+                        let reference = enc_with(|e| e.encode($v)).map(|b| b[1..].to_vec());
+                        let mut a = [0xEEu8; $n];
+                        let r1 = {
+                            let mut e = Encoder::from(&mut a);
+                            e.encode($v).map_err(|e| e.to_string())
+                        };
+                        same(&format!("array[{}] through Encoder::from(&mut array)", $n), r1.map(|_| a.to_vec()), reference.clone(), &mut out);
+                        let mut b = [0xEEu8; $n];
+                        let r2 = {
+                            let mut e = Encoder::new(SliceOutputTarget::from(&mut b));
+                            e.encode($v).map_err(|e| e.to_string())
+                        };
+                        same(&format!("array[{}] through SliceOutputTarget::from(&mut array)", $n), r2.map(|_| b.to_vec()), reference.clone(), &mut out);
+                        let mut c = vec![0xEEu8; $n + 4];
+                        let r3 = {
+                            let mut e = Encoder::from(&mut c[..]);
+                            e.encode($v).map_err(|e| e.to_string())
+                        };
+                        same(&format!("slice of {} + 4 bytes through Encoder::from(&mut slice): the tail stays untouched", $n), r3.map(|_| c.clone()), reference.map(|mut r| { r.extend([0xEE; 4]); r }), &mut out);
+                    }};
+                }
+                arr!(1, 0x5Au8);
+                arr!(2, 0x0102u16);
+                arr!(4, -2i32);
+                arr!(8, 0x0102030405060708u64);
+                arr!(9, "8 bytes!");
+                arr!(3, &[7u8, 9][..]);
             }
             _ => {
                 for n in [0usize, 1, 2, 63, 64, 65, 300, 16383, 16384] {
